@@ -126,9 +126,20 @@ class ResultTypesGenerator:
                 extra_bases=self._get_extra_bases_from_mixin_directives(
                     self.operation_definition
                 ),
+                typename_values=self._get_possible_types_names(
+                    self._get_operation_type_name(self.operation_definition)
+                ),
             )
 
         self._add_enums_scalars_fragments_imports()
+
+    def _get_possible_types_names(self, type_name: str) -> List[str]:
+        """Names of object types which can appear as __typename of given type."""
+        type_ = self.schema.type_map[type_name]
+        if is_abstract_type(type_):
+            abstract_type = cast(GraphQLAbstractType, type_)
+            return [t.name for t in self.schema.get_possible_types(abstract_type)]
+        return [type_name]
 
     def _get_operation_type_name(self, definition: ExecutableDefinitionNode) -> str:
         if isinstance(definition, FragmentDefinitionNode):
